@@ -50,6 +50,8 @@ class Prop:
         if not archgen.well_formed(written):
             return None
         rb = out.split(" | ", 1)[1]
+        if "!lost" in rb:
+            return "an entry of a loaded hash array is not found under its own key", "roundtrip:lost-key"
         if not rb.startswith("ok ") and not (rb == "ok" and not written):
             return "read-back of an intact archive failed: " + rb[:200], "roundtrip:failed-read"
         got = archgen.parse_items([x for x in rb.split(" ")[1:] if x], selfs=False)
@@ -129,8 +131,22 @@ def fixed_cases(reg):
           ("v", 100001, ("k", b"c10 never seen before")), ("v", 100002, ("k", b"self")),
           ("v", 100003, ("ca", 100004, 0, [(100005, ("k", b"c10 never seen before")), (100006, ("k", b"x"))]))]
     cases = []
-    for i, t in enumerate([t1, t2, t3, t4]):
-        cases.append(("fixed:%d" % i, [reg, archgen.arc_line((1, b"TEST", b"Morfuse test archive"), t)]))
+    # every kind of ArchiveInternal: Ref backward / forward / to itself / to a const-array element / null, a pointer cell
+    # shared by three variables, Container / SafeContainer, a hash array (shared by a later variable) with integer, string
+    # and constant-string keys, a listener-keyed array
+    A = lambda h, rc, es: ("arr", h, rc, 0, 0, 0, [], es)
+    t5 = [li(1), ("v", 100001, ("i", 9)), ("v", 100002, ("ref", 100001)), ("v", 100003, ("ref", 100004)),
+          ("v", 100004, ("ref", 100004)), ("v", 100005, ("ca", 100006, 1, [(100007, ("s", b"x")), (100008, ("ref", 100007))])),
+          ("v", 100009, ("ref", 100007)), ("v", 100010, ("ref", 0)), ("v", 100011, ("ptr", 100012, [100011, 100013, 100014])),
+          ("v", 100013, ("pref", 100012)), ("v", 100014, ("pref", 100012)), ("v", 100015, ("con", 1)), ("v", 100016, ("scon", 1)),
+          ("v", 100017, A(100018, 1, [(100019, ("i", 5), 100020, ("s", b"five")), (100021, ("s", b"key"), 100022, ("ref", 100001)),
+                            (100023, ("k", b"ckey"), 100024, ("l", 1)), (100025, ("i", 2 ** 64 - 1), 100026, ("k", b"self")),
+                            (100027, ("i", 12), 100028, ("car", 100006)), (100029, ("s", b""), 100030, ("n",))])),
+          ("v", 100031, ("aref", 100018)), ("v", 100032, A(100033, 0, [(100034, ("l", 1), 100035, ("i", 1))])),
+          ("v", 100036, A(100037, 0, []))]
+    cases = []
+    for i, t in enumerate([t1, t2, t3, t4, t5]):
+        cases.append(("fixed:%d" % i, (1, b"TEST", b"Morfuse test archive"), t))
     return cases
 
 
@@ -254,7 +270,9 @@ def check(ctx):
     d = archgen.ADiff(ctx, prop, exe, AREA)
     d.base_timeout = 60
     bad = d.run_batch(corpus_cases(reg))
-    bad += d.run_batch(fixed_cases(reg))
+    fx = fixed_cases(reg)
+    fxc = archgen.canon(exe, reg, [(info, items) for _, info, items in fx])
+    bad += d.run_batch([(name, [reg, archgen.arc_line(*c)]) for (name, _, _), c in zip(fx, fxc)])
     rng = ctx.rng("random")
     quick = ctx.tier == "quick"
     ncases = 400 if quick else 12000
@@ -262,6 +280,10 @@ def check(ctx):
     nwf = 0
     maxobj = 0
     batch = []
+
+    def flush(batch):
+        fixed = archgen.canon(exe, reg, [(info, items) for _, info, items, _ in batch])
+        return d.run_batch([(name, [reg, archgen.arc_line(*c)] + extra) for (name, _, _, extra), c in zip(batch, fixed)])
     for i in range(ncases):
         n = rng.choice([1, 5, 20, 60, 200])
         items = archgen.gen_case(rng, n, maxstr=300 if rng.random() < 0.9 else 6000)
@@ -269,11 +291,11 @@ def check(ctx):
         nwf += archgen.well_formed(items)
         maxobj = max(maxobj, len(archgen.registered(items)))
         count_kinds(items, hist)
-        batch.append(("random:%d" % i, [reg, archgen.arc_line(info, items)] + (["rsame"] if i % 4 == 0 else [])))
+        batch.append(("random:%d" % i, info, items, ["rsame"] if i % 4 == 0 else []))
         if len(batch) == 100:
-            bad += d.run_batch(batch)
+            bad += flush(batch)
             batch = []
-    bad += d.run_batch(batch)
+    bad += flush(batch)
     # every primitive with every boundary value, alone (the width/tag table)
     sweep = []
     for p in archgen.PRIMS:
@@ -284,7 +306,7 @@ def check(ctx):
                bad == 0, "%d differing cases" % bad, reported=True)
     tstats = tables_stage(ctx, exe, reg)
     s_items = archgen.gen_case(ctx.rng("sample"), 6, nobj=2)
-    ctx.samples = [archgen.arc_line((1, b"MFUS", b"Morfuse Archive"), s_items)]
+    ctx.samples = [archgen.arc_line(*archgen.canon(exe, reg, [((1, b"MFUS", b"Morfuse Archive"), s_items)])[0])]
     cov = {
         "evaluations": d.cases, "distinct_nontrivial": len(d.distinct),
         "rule": "typed write sequences of 1..200 calls over all 15 primitive calls (boundary values 55%), strings/raw "
@@ -306,6 +328,11 @@ def count_vkinds(v, hist):
     if v[0] == "ca":
         for _, e in v[3]:
             count_vkinds(e, hist)
+    if v[0] == "arr":
+        hist["arr:entries"] = hist.get("arr:entries", 0) + len(v[7])
+        for _, kv, _, vv in v[7]:
+            hist["key:" + kv[0]] = hist.get("key:" + kv[0], 0) + 1
+            count_vkinds(vv, hist)
 
 
 def count_kinds(items, hist):
